@@ -48,8 +48,20 @@ Meaning of the Rust constructs (combinators: lean/KestrelModel/RsCli.lean, RsStr
   library functions in a record (table RECORDS / `record=` in EXTERN_FNS) -> a parameter of every translated function that
                            (transitively) calls one: no meaning is given to them
   paths (Path, PathBuf) -> the string they were made from
+  match guards          -> lowered while parsing (`lower_guards`): a run of arms with the SAME pattern closed by an unguarded one becomes a
+                           single arm with an `if` / `else if` chain; a run falling through to a final `_` arm uses (a copy of) that arm's
+                           body as the last `else`; any other fall-through is refused
+  matches!(e, P if g)   -> `match e { P if g => true, _ => false }`; a `match` without statements / effects nested in an expression
+                           (the condition of an `if`) is a Lean `match` term
+  let (a, mut b): T = e -> the value, then one destructuring `let (a, b) := …` (a tuple of plain bindings only); the expected tuple
+                           type is pushed into the components of a tuple expression (`(Box::new(f), flag)`)
+  [] / [x] / [x, y]     -> slice patterns without `..` are Lean list patterns
+  f / Ctor / T::method where a closure is expected (`.map(Ctor)`, `.map_err(f)`, `.and_then(OsStr::to_str)`, `.map(str::to_string)`)
+                        -> the closure `|x| path(x)`; `Type::method(x, …)` is `x.method(…)` (pure methods only)
+  Result::map           -> Except.map;  Option::and_then -> Option.bind;  Option::unwrap_or -> Option.getD;
+  a.get(lo..hi)         -> `if <range inside a> then some (…) else none`;  iter of Results `.collect()` into a Result -> RsCli.collect_results
 """
-import sys, os, hashlib
+import sys, os, hashlib, copy
 
 LEAN_KEYWORDS = {
     'at', 'open', 'end', 'from', 'then', 'else', 'if', 'do', 'by', 'fun', 'let', 'in', 'have', 'show', 'with', 'match',
@@ -214,6 +226,57 @@ ASSIGN_OPS = {'=', '+=', '-=', '*=', '/=', '%=', '^=', '&=', '|=', '<<=', '>>='}
 PREC_AS, PREC_RANGE, PREC_ASSIGN = 12, 2, 1
 INT_TYPES = ('usize', 'u64', 'u32', 'u8', 'i32')
 ITEM_WORDS = ('struct', 'enum', 'impl', 'const', 'static', 'use', 'mod', 'type', 'trait', 'macro_rules')
+
+
+def pat_key(p):
+    """a structural key of a pattern (two patterns with the same key match the same values and bind the same names)"""
+    k = p.kind
+    if k == 'pwild': return ('_',)
+    if k == 'pid': return ('id', p.name)
+    if k == 'pref': return ('&', pat_key(p.p))
+    if k == 'plit': return ('lit', p.lit.kind, p.lit.val)
+    if k in ('ptuple', 'pslice'): return (k,) + tuple(pat_key(x) for x in p.subs)
+    if k == 'por': return ('|',) + tuple(pat_key(x) for x in p.alts)
+    if k == 'pctor': return ('ctor', tuple(p.path), None if p.subs is None else tuple(pat_key(x) for x in p.subs))
+    return (k, id(p))
+
+
+def as_block(body, line):
+    return body if body.kind == 'block' else Node('block', line, stmts=[], tail=body, fns=[])
+
+
+def lower_guards(arms, line):
+    """`P if g1 => A1, P if g2 => A2, P => A3`  ->  `P => if g1 {A1} else if g2 {A2} else {A3}`: a run of arms with the SAME pattern
+       whose last arm has no guard becomes one arm.  A run that is not closed by an unguarded arm of the same pattern falls
+       through to the arms that follow: accepted only when what follows is a single final `_` arm (its body is then also the
+       last `else`, and the `_` arm stays for the values the pattern does not match)."""
+    if not any(getattr(a, 'guard', None) is not None for a in arms): return arms
+    out, i = [], 0
+    while i < len(arms):
+        a = arms[i]
+        if a.guard is None:
+            out.append(a); i += 1; continue
+        key = pat_key(a.pat)
+        run = [a]
+        j = i + 1
+        while j < len(arms) and pat_key(arms[j].pat) == key:
+            run.append(arms[j]); j += 1
+            if run[-1].guard is None: break
+        if run[-1].guard is None:
+            last = as_block(run[-1].body, run[-1].line)
+            guarded = run[:-1]
+        else:
+            if not (j == len(arms) - 1 and arms[j].pat.kind == 'pwild' and arms[j].guard is None):
+                raise Unsupported('match guard whose fall-through case is not an arm with the same pattern (or a final `_` arm)', a.line)
+            last = as_block(copy.deepcopy(arms[j].body), arms[j].line)       # (the `_` arm keeps its own copy)
+            guarded = run
+            if a.pat.kind in ('pid', 'pwild'): j += 1                       # an irrefutable pattern: the `_` arm is used up
+        els = last
+        for g in reversed(guarded):
+            els = Node('if', g.line, cond=g.guard, then=as_block(g.body, g.line), els=els)
+        out.append(Node('arm', a.line, pat=a.pat, body=Node('block', a.line, stmts=[], tail=els, fns=[]), guard=None))
+        i = j
+    return out
 
 
 class Parser:
@@ -528,6 +591,24 @@ class Parser:
             if self.at('let'):
                 self.next()
                 mut = bool(self.accept('mut'))
+                if self.at('(') and not mut:
+                    # `let (a, mut b, _): T = init;` -- a tuple of plain bindings
+                    self.next()
+                    binds = []
+                    while not self.accept(')'):
+                        bm = bool(self.accept('mut'))
+                        if self.peek().kind != 'id' or self.at('(', 1) or self.at('{', 1) or self.at('::', 1) or self.at('ref') or self.at('@', 1):
+                            raise Unsupported('pattern in `let` (other than a tuple of plain bindings)', tok.line)
+                        binds.append((self.ident().text, bm))
+                        if not self.at(')'): self.expect(',')
+                    if len(binds) < 2: raise Unsupported('pattern in `let` (other than a tuple of plain bindings)', tok.line)
+                    ty = self.parse_type() if self.accept(':') else None
+                    if not self.accept('='): raise Unsupported('`let` without initialiser', tok.line)
+                    init = self.parse_expr()
+                    if self.at('else'): raise Unsupported('`let … else`', tok.line)
+                    self.expect(';')
+                    stmts.append(Node('let', tok.line, name=None, binds=binds, mut=False, ty=ty, init=init))
+                    continue
                 if not (self.peek().kind == 'id') or self.at('(', 1) or self.at('{', 1) or self.at('::', 1) or self.at('ref'):
                     raise Unsupported('pattern in `let`', tok.line)
                 name = self.ident()
@@ -536,7 +617,7 @@ class Parser:
                 init = self.parse_expr()
                 if self.at('else'): raise Unsupported('`let … else`', tok.line)
                 self.expect(';')
-                stmts.append(Node('let', tok.line, name=name.text, mut=mut, ty=ty, init=init))
+                stmts.append(Node('let', tok.line, name=name.text, binds=None, mut=mut, ty=ty, init=init))
             elif self.at('for'):
                 self.next()
                 pat = self.parse_pattern()
@@ -639,7 +720,8 @@ class Parser:
                 self.skip_attribute(); continue
             self.accept('|')
             pat = self.parse_pat_alts()
-            if self.at('if'): raise Unsupported('match guard', line)
+            guard = None
+            if self.accept('if'): guard = self.parse_expr()
             aline = self.expect('=>').line
             if self.at('{'):
                 body = self.parse_block()
@@ -662,9 +744,9 @@ class Parser:
             else:
                 body = self.parse_expr()
                 if not self.at('}'): self.expect(',')
-            arms.append(Node('arm', aline, pat=pat, body=body))
+            arms.append(Node('arm', aline, pat=pat, body=body, guard=guard))
         self.no_struct = saved
-        return Node('match', line, scrut=scrut, arms=arms, iflet=False)
+        return Node('match', line, scrut=scrut, arms=lower_guards(arms, line), iflet=False)
 
     def parse_pattern(self):
         """`for` pattern: an identifier or `_`"""
@@ -693,6 +775,14 @@ class Parser:
                 if not self.at(')'): self.expect(',')
             if len(subs) == 1: return subs[0]
             return Node('ptuple', tok.line, subs=subs)
+        if self.accept('['):
+            subs = []
+            while not self.accept(']'):
+                if self.at('..'): raise Unsupported('`..` in a slice pattern', tok.line)
+                subs.append(self.parse_pat())
+                if self.at('@'): raise Unsupported('`@` pattern', tok.line)
+                if not self.at(']'): self.expect(',')
+            return Node('pslice', tok.line, subs=subs)
         if tok.kind in ('int', 'str', 'char'):
             self.next()
             if self.at('..') or self.at('..='): raise Unsupported('range pattern', tok.line)
@@ -817,6 +907,21 @@ class Parser:
             if not self.accept(';'): raise Unsupported('`vec![a, b, …]` list form', tok.line)
             cnt = self.parse_expr(); self.expect(']')
             return Node('repeat', tok.line, elem=elem, count=cnt, what='vec!')
+        if name == 'matches':
+            # `matches!(e, P | Q if g)` is `match e { P | Q if g => true, _ => false }`
+            self.expect('(')
+            saved, self.no_struct = self.no_struct, False
+            scrut = self.parse_expr()
+            self.expect(',')
+            self.accept('|')
+            pat = self.parse_pat_alts()
+            guard = self.parse_expr() if self.accept('if') else None
+            self.accept(',')
+            self.expect(')')
+            self.no_struct = saved
+            arms = [Node('arm', tok.line, pat=pat, body=Node('bool', tok.line, val=True), guard=guard),
+                    Node('arm', tok.line, pat=Node('pwild', tok.line), body=Node('bool', tok.line, val=False), guard=None)]
+            return Node('match', tok.line, scrut=scrut, arms=lower_guards(arms, tok.line), iflet=False)
         if name == 'cfg':
             self.next()
             raw, depth = [], 1
@@ -1265,6 +1370,9 @@ PRINT_MACROS = {'println': ('RsCli.print_stdout', '\n'), 'print': ('RsCli.print_
 
 #   methods of `Path` (a string here) that look at the file system
 STR_EFFECT_METHODS = {'exists': ([], 'bool', 'RsCli.Path.exists')}
+#   `Type::method(x)` spellings of methods of strings / of standard traits (`.map(str::to_string)`, `.map(ToString::to_string)`)
+STRING_UFCS = ('as_str', 'to_string', 'to_owned', 'clone', 'len', 'is_empty', 'as_bytes', 'trim')
+TRAIT_UFCS = {('ToString', 'to_string'), ('ToOwned', 'to_owned'), ('Clone', 'clone')}
 MUTATING_METHODS = ('retain', 'push', 'extend_from_slice', 'copy_from_slice')
 EFFECT_KINDS = ('return', 'continue', 'break', 'try', 'loop')
 
@@ -1637,7 +1745,9 @@ class FnTr:
         if k == 'paren': return self.expr0(e.e, exp)
         if k == 'lean': return (e.text, e.ty, True)
         if k == 'tuple':
-            parts = [self.expr(p) for p in e.parts]
+            ex = resolve(exp) if exp is not None else None
+            want = list(ex[1]) if (head(ex) == 'tuple' and len(ex[1]) == len(e.parts)) else [None] * len(e.parts)
+            parts = [self.expr(p, w) for p, w in zip(e.parts, want)]
             return ('(' + ', '.join(p[0] for p in parts) + ')', ('tuple', tuple(p[1] for p in parts)), True)
         if k == 'path': return self.path_value(e, exp)
         if k == 'ref':
@@ -1694,8 +1804,8 @@ class FnTr:
         if k == 'structlit': return self.struct_lit(e)
         if k == 'macro': return self.macro_expr(e, exp)
         if k == 'if': return self.pure_if(e, exp)
-        if k == 'closure': self.bad('closure outside the argument of retain / find / map / map_err / ok_or_else', e.line)
-        if k == 'match': self.bad('`match` expression nested in another expression', e.line)
+        if k == 'closure': self.bad('closure outside the argument of retain / find / map / map_err / ok_or_else / and_then', e.line)
+        if k == 'match': return self.pure_match(e, exp)
         if k == 'loop': self.bad('`loop` expression other than as a statement or a `let` initialiser', e.line)
         if k == 'try': self.bad('internal error: `?` not lifted out of an expression', e.line)
         if k == 'assign': self.bad('assignment used as an expression', e.line)
@@ -1714,6 +1824,27 @@ class FnTr:
         a = self.expr(tail_of(e.then), vty)
         b = self.expr(tail_of(e.els), vty)
         return (f'if {c[0]} then {a[0]} else {b[0]}', vty, False)
+
+    def pure_match(self, e, exp):
+        """`match s { P => a, … }` without statements or effects, nested in an expression (e.g. `if matches!(x, P) { … }`)"""
+        lits = []
+        walk([a.pat for a in e.arms], lambda n: lits.append(n) if n.kind == 'plit' else None)
+        if lits: self.bad('`match` on literals nested in another expression', e.line)
+        scrut = self.expr(e.scrut)
+        vty = self.node_tv(e)
+        if exp is not None: self.unify(vty, exp, e.line, '`match` expression')
+        arms = []
+        for arm in e.arms:
+            b = arm.body
+            if b.kind == 'block':
+                if b.stmts or b.fns or b.tail is None: self.bad('`match` expression with statements in its arms, nested in another expression', e.line)
+                b = b.tail
+            self.scopes.append({})
+            pat = self.pattern(arm.pat, scrut[1])
+            r = self.expr(b, vty)
+            self.scopes.pop()
+            arms.append(f'| {pat} => {r[0]}')
+        return (f'match {scrut[0]} with ' + ' '.join(arms), vty, False)
 
     def user_item(self, path, line):
         """classify a path naming something defined in a translated file (or Some/Ok/Err, or an imported item)"""
@@ -1832,6 +1963,12 @@ class FnTr:
 
     def closure(self, c, ptypes, what):
         """-> (lean text, result type)"""
+        if c.kind == 'path' and len(ptypes) == 1:
+            # a function / constructor / method named by its path (`.map(Ctor)`, `.map_err(f)`, `.and_then(Type::method)`): `|x| path(x)`
+            if not hasattr(c, 'as_closure'):
+                c.as_closure = Node('closure', c.line, params=[Node('pid', c.line, name="x'")],
+                                    body=Node('call', c.line, f=c, args=[Node('path', c.line, path=["x'"], generics=None)]))
+            c = c.as_closure
         if c.kind != 'closure': self.bad(f'{what}: a closure literal was expected', c.line)
         if len(c.params) != len(ptypes): self.bad(f'{what}: closure with {len(c.params)} parameters', c.line)
         if has_effects(c.body): self.bad('`return` / `?` / `continue` / `break` inside a closure', c.line)
@@ -1854,6 +1991,9 @@ class FnTr:
         if p.kind == 'ptuple':
             if head(ty) != 'tuple' or len(ty[1]) != len(p.subs): self.bad(f'tuple pattern for a value of type {show_type(ty)}', p.line)
             return '(' + ', '.join(self.pattern(s, t) for s, t in zip(p.subs, ty[1])) + ')'
+        if p.kind == 'pslice':
+            if head(ty) != 'list': self.bad(f'slice pattern for a value of type {show_type(ty)}', p.line)
+            return '[' + ', '.join(self.pattern(s, ty[1]) for s in p.subs) + ']'
         if p.kind == 'por':
             alts = []
             for a in p.alts:
@@ -2010,7 +2150,13 @@ class FnTr:
                 return (f'{DYN_TRAITS[ex[1]]["lean"]}.{self.dyn_ctor(ex[1], r[1], e.line)} {self.paren(r)}', ex, False)
             return r
         if e.f.generics: self.bad('generic arguments in a path', e.line)
+        if len(path) == 2 and e.args and ((path[0] == 'str' or (path[0] == 'String' and path[1] in STRING_UFCS) or tuple(path) in TRAIT_UFCS)):
+            return self.mcall_expr(self.ufcs(e), exp)              # `str::to_string(x)` is `x.to_string()`
         it = self.user_item(path, e.line)
+        if it[0] == 'fn' and it[1].self_kind is not None and e.args and not self.sig_effectful(it[1]):
+            return self.mcall_expr(self.ufcs(e), exp)              # `Type::method(x, …)` is `x.method(…)`
+        if it[0] == 'extern' and e.args and it[1][-1] in EXTERN_TYPES.get(it[1][:-1], {}).get('methods', {}):
+            return self.mcall_expr(self.ufcs(e), exp)
         if it[0] == 'struct':
             st = G.structs[it[1]]
             if not st.tuple: self.bad(f'`{it[1]}(…)`: not a tuple struct', e.line)
@@ -2053,6 +2199,12 @@ class FnTr:
             args = [self.paren(self.expr(x, t)) for x, t in zip(e.args, ptys)]
             return (' '.join([lean] + args), ('adt', full[:-1]), not args)
         self.bad(f'call of `{"::".join(full)}`, which is neither defined in a translated file nor a known library function', e.line)
+
+    def ufcs(self, e):
+        if not hasattr(e, 'as_mcall'):
+            e.as_mcall = Node('mcall', e.line, recv=e.args[0], name=e.f.path[-1], args=e.args[1:])
+        e.as_mcall.recv, e.as_mcall.args = e.args[0], e.args[1:]
+        return e.as_mcall
 
     def subst_self(self, t, s):
         if t is SELF: return s
@@ -2191,6 +2343,18 @@ class FnTr:
             if name == 'len': arity(0); return (f'{self.paren(recv)}.length', 'usize', False)
             if name == 'is_empty': arity(0); return (f'{self.paren(recv)}.isEmpty', 'bool', False)
             if name == 'iter': arity(0); return (recv[0], ('iter', rt[1]), recv[2])
+            if name == 'get' and narg == 1 and strip_paren(args[0]).kind == 'range':
+                # `a.get(lo..hi)`: the sub-slice if the range lies inside `a`
+                rng = strip_paren(args[0])
+                lo, hi = self.slice_bounds(rng)
+                base = self.paren(recv)
+                if lo is None and hi is None: return (f'some {base}', ('opt', rt), False)
+                if hi is None: cond, val = f'{self.paren(lo)} ≤ {base}.length', f'{base}.drop {self.paren(lo)}'
+                elif lo is None: cond, val = f'{self.paren(hi)} ≤ {base}.length', f'{base}.take {self.paren(hi)}'
+                else:
+                    cond = f'{self.paren(lo)} ≤ {self.paren(hi)} ∧ {self.paren(hi)} ≤ {base}.length'
+                    val = f'({base}.drop {self.paren(lo)}).take ({self.paren(hi)} - {self.paren(lo)})'
+                return (f'if {cond} then some ({val}) else none', ('opt', rt), False)
             if name == 'contains':
                 arity(1)
                 a = self.expr(args[0], rt[1])
@@ -2202,6 +2366,10 @@ class FnTr:
                 arity(1)
                 clo, rty = self.closure(args[0], [rt[1]], '`.map`')
                 return (f'List.map {clo} {self.paren(recv)}', ('iter', rty), False)
+            if name == 'collect' and narg == 0 and head(rt[1]) == 'res' and (exp is None or head(exp) == 'res' or isinstance(resolve(exp), TVar)):
+                # an iterator of Results into `Result<Vec<_>, _>`: the first error, or all the values
+                et = resolve(rt[1])
+                return (f'RsCli.collect_results {self.paren(recv)}', ('res', ('list', et[1]), et[2]), False)
             if name == 'collect':
                 arity(0)
                 if exp is not None and head(exp) not in ('list', None) and not isinstance(resolve(exp), TVar):
@@ -2225,6 +2393,15 @@ class FnTr:
                 arity(1)
                 clo, ety = self.closure(args[0], [], '`.ok_or_else`')
                 return (f'RsCli.ok_or_else {self.paren(recv)} {clo}', ('res', rt[1], ety), False)
+            if name == 'and_then':
+                arity(1)
+                clo, rty = self.closure(args[0], [rt[1]], '`.and_then`')
+                if head(rty) != 'opt': self.bad('`.and_then` with a closure that does not return an Option', e.line)
+                return (f'Option.bind {self.paren(recv)} {clo}', rty, False)
+            if name == 'unwrap_or':
+                arity(1)
+                a = self.expr(args[0], rt[1])
+                return (f'Option.getD {self.paren(recv)} {self.paren(a)}', rt[1], False)
         elif h == 'res':
             if name in ('unwrap', 'expect'):
                 arity(0 if name == 'unwrap' else 1)
@@ -2235,6 +2412,10 @@ class FnTr:
                 arity(1)
                 clo, ety = self.closure(args[0], [rt[2]], '`.map_err`')
                 return (f'RsStr.map_err {self.paren(recv)} {clo}', ('res', rt[1], ety), False)
+            if name == 'map':
+                arity(1)
+                clo, vty = self.closure(args[0], [rt[1]], '`.map`')
+                return (f'Except.map {clo} {self.paren(recv)}', ('res', vty, rt[2]), False)
             if name in ('is_ok', 'is_err'):
                 arity(0); return (f'{self.paren(recv)}.isOk' if name == 'is_ok' else f'!{self.paren(recv)}.isOk', 'bool', False)
         elif h == 'adt':
@@ -2533,8 +2714,10 @@ class FnTr:
         def pat_names(p, acc):
             if p.kind == 'pid': acc.add(p.name)
             elif p.kind == 'pref': pat_names(p.p, acc)
-            elif p.kind in ('ptuple', 'pctor'):
+            elif p.kind in ('ptuple', 'pctor', 'pslice'):
                 for s in (p.subs or []): pat_names(s, acc)
+            elif p.kind == 'por':
+                for s in p.alts: pat_names(s, acc)
             return acc
 
         def scan(x, local):
@@ -2553,7 +2736,9 @@ class FnTr:
                 if x.tail is not None: scan(x.tail, loc)
                 return
             if k == 'let':
-                scan(x.init, local); local.add(x.name); return
+                scan(x.init, local)
+                for n_ in ([x.name] if x.binds is None else [b[0] for b in x.binds]): local.add(n_)
+                return
             if k == 'for':
                 scan(x.iter, local)
                 scan(x.body, local | ({x.pat} if x.pat != '_' else set())); return
@@ -2699,6 +2884,20 @@ class FnTr:
 
     def let_stmt(self, s, nxt, ctx):
         ann = self.norm(s.ty, s.line) if s.ty is not None else None
+        if s.binds is not None:
+            # `let (a, b) = init;`: the value, then one destructuring `let`
+            if not hasattr(s, 'tvs'): s.tvs = [TVar() for _ in s.binds]
+            tty = ('tuple', tuple(s.tvs))
+            if ann is not None: self.unify(tty, ann, s.line, 'tuple pattern in `let`')
+
+            def kt(r):
+                self.unify(r[1], tty, s.line, 'tuple pattern in `let`')
+                names = []
+                for (bn, bm), bt in zip(s.binds, s.tvs):
+                    if bn == '_': names.append('_')
+                    else: names.append(lname(self.declare(bn, bt, bm, 'local', s.line).name))
+                return [f'let ({", ".join(names)}) := {r[0]}'] + nxt()
+            return self.with_value(s.init, tty, ctx, kt)
         if s.name == '_': self.bad('`let _`', s.line)
 
         def k(r):
